@@ -640,6 +640,8 @@ fn visit_selection<'a, V: Visitor<'a>>(
                     vec![field.pos],
                     "Unknown field \"__typename\" on type \"Subscription\".",
                 );
+            } else {
+                visit_typename_field(v, ctx, field);
             }
         }
         Selection::FragmentSpread(fragment_spread) => {
@@ -686,6 +688,39 @@ fn visit_field<'a, V: Visitor<'a>>(
     visit_directives(v, ctx, &field.node.directives);
     visit_selection_set(v, ctx, &field.node.selection_set);
     v.exit_field(ctx, field);
+}
+
+/// `__typename` is not registered as a field of any type, so the rules that
+/// look a field up by its name cannot check it: it takes no arguments and, being
+/// a `String!`, no selection set. Its directives are shown to the rules like
+/// those of any other field; the visitors that measure a query (inline mode)
+/// keep ignoring the meta field.
+fn visit_typename_field<'a, V: Visitor<'a>>(
+    v: &mut V,
+    ctx: &mut VisitorContext<'a>,
+    field: &'a Positioned<Field>,
+) {
+    for (name, _) in &field.node.arguments {
+        ctx.report_error(
+            vec![name.pos],
+            format!("Unknown argument \"{}\" on field \"__typename\".", name),
+        );
+    }
+
+    if !field.node.selection_set.node.items.is_empty() {
+        ctx.report_error(
+            vec![field.pos],
+            "Field \"__typename\" must not have a selection since type \"String\" has no subfields",
+        );
+    }
+
+    if v.mode() == VisitMode::Normal {
+        ctx.with_type(ctx.registry.types.get("String"), |ctx| {
+            v.enter_field(ctx, field);
+            visit_directives(v, ctx, &field.node.directives);
+            v.exit_field(ctx, field);
+        });
+    }
 }
 
 fn visit_input_value<'a, V: Visitor<'a>>(
